@@ -459,6 +459,43 @@ def isConstantNT (nt : Nat) : Bool :=
   nt == NT.BOOL_CONSTANT || nt == NT.REAL_CONSTANT || nt == NT.INT_CONSTANT ||
   nt == NT.BV_CONSTANT || nt == NT.STR_CONSTANT || nt == NT.ALGEBRAIC_CONSTANT
 
+/-- type of the function symbol of a FUNCTION node (`function_name().symbol_type()`) -/
+def fnType (s : Mgr) (c : Content) : Option Ty :=
+  match c.payload with
+  | .fn f => (match s.content? f with
+              | some ⟨_, _, .sym _ t⟩ => some t
+              | _ => none)
+  | _ => none
+
+/-- One step of `SimpleTypeChecker` on a well-sorted node (no checking): `t0`, `t1` are the
+    types of the first and second child, `fty` the type of the function symbol. -/
+def typeView (nt : Nat) (pl : Payload) (t0 t1 fty : Unit → Option Ty) : Option Ty :=
+  if nt ≤ NT.IFF then some .bool
+  else if nt = NT.SYMBOL then (match pl with | .sym _ t => some t | _ => none)
+  else if nt = NT.FUNCTION then (match fty () with | some (.func r _) => some r | _ => none)
+  else if nt = NT.REAL_CONSTANT || nt = NT.ALGEBRAIC_CONSTANT || nt = NT.TOREAL || nt = NT.POW then some .real
+  else if nt = NT.BOOL_CONSTANT then some .bool
+  else if nt = NT.INT_CONSTANT then some .int
+  else if nt = NT.STR_CONSTANT then some .string
+  else if nt = NT.PLUS || nt = NT.MINUS || nt = NT.TIMES || nt = NT.DIV || nt = NT.ARRAY_STORE then t0 ()
+  else if nt = NT.LE || nt = NT.LT || nt = NT.EQUALS then some .bool
+  else if nt = NT.ITE then t1 ()
+  else if nt = NT.BV_CONSTANT then (match pl with | .bv _ w => some (.bv w) | _ => none)
+  else if nt = NT.BV_ULT || nt = NT.BV_ULE || nt = NT.BV_SLT || nt = NT.BV_SLE then some .bool
+  else if isBvOperator nt then
+    (match pl with | .nums (w :: _) => some (.bv w.toNat) | _ => none)
+  else if nt = NT.STR_LENGTH || nt = NT.STR_INDEXOF || nt = NT.STR_TO_INT || nt = NT.BV_TONATURAL then some .int
+  else if nt = NT.STR_CONCAT || nt = NT.STR_REPLACE || nt = NT.STR_SUBSTR || nt = NT.INT_TO_STR ||
+          nt = NT.STR_CHARAT then some .string
+  else if nt = NT.STR_CONTAINS || nt = NT.STR_PREFIXOF || nt = NT.STR_SUFFIXOF then some .bool
+  else if nt = NT.ARRAY_SELECT then
+    (match t0 () with | some (.array _ e) => some e | _ => none)
+  else if nt = NT.ARRAY_VALUE then
+    (match pl, t0 () with
+     | .ty it, some e => some (.array it e)
+     | _, _ => none)
+  else none
+
 /-- Type of a well-sorted formula, as `SimpleTypeChecker` computes it (no checking). -/
 def typeOfAux (s : Mgr) : Nat → Nid → Option Ty
   | 0, _ => none
@@ -466,63 +503,32 @@ def typeOfAux (s : Mgr) : Nat → Nid → Option Ty
     match s.content? i with
     | none => none
     | some c =>
-      let nt := c.nodeType
-      if nt ≤ NT.IFF then some .bool
-      else if nt = NT.SYMBOL then (match c.payload with | .sym _ t => some t | _ => none)
-      else if nt = NT.FUNCTION then
-        (match c.payload with
-         | .fn f => (match s.content? f with
-                     | some ⟨_, _, .sym _ (.func r _)⟩ => some r
-                     | _ => none)
-         | _ => none)
-      else if nt = NT.REAL_CONSTANT || nt = NT.ALGEBRAIC_CONSTANT || nt = NT.TOREAL || nt = NT.POW then some .real
-      else if nt = NT.BOOL_CONSTANT then some .bool
-      else if nt = NT.INT_CONSTANT then some .int
-      else if nt = NT.STR_CONSTANT then some .string
-      else if nt = NT.PLUS || nt = NT.MINUS || nt = NT.TIMES || nt = NT.DIV || nt = NT.ARRAY_STORE then
-        typeOfAux s fuel (c.args.headD 0)
-      else if nt = NT.LE || nt = NT.LT || nt = NT.EQUALS then some .bool
-      else if nt = NT.ITE then typeOfAux s fuel (c.args.getD 1 0)
-      else if nt = NT.BV_CONSTANT then (match c.payload with | .bv _ w => some (.bv w) | _ => none)
-      else if nt = NT.BV_ULT || nt = NT.BV_ULE || nt = NT.BV_SLT || nt = NT.BV_SLE then some .bool
-      else if isBvOperator nt then
-        (match c.payload with | .nums (w :: _) => some (.bv w.toNat) | _ => none)
-      else if nt = NT.STR_LENGTH || nt = NT.STR_INDEXOF || nt = NT.STR_TO_INT || nt = NT.BV_TONATURAL then some .int
-      else if nt = NT.STR_CONCAT || nt = NT.STR_REPLACE || nt = NT.STR_SUBSTR || nt = NT.INT_TO_STR ||
-              nt = NT.STR_CHARAT then some .string
-      else if nt = NT.STR_CONTAINS || nt = NT.STR_PREFIXOF || nt = NT.STR_SUFFIXOF then some .bool
-      else if nt = NT.ARRAY_SELECT then
-        (match typeOfAux s fuel (c.args.headD 0) with | some (.array _ e) => some e | _ => none)
-      else if nt = NT.ARRAY_VALUE then
-        (match c.payload, typeOfAux s fuel (c.args.headD 0) with
-         | .ty it, some e => some (.array it e)
-         | _, _ => none)
-      else none
+      typeView c.nodeType c.payload (fun _ => typeOfAux s fuel (c.args.headD 0))
+        (fun _ => typeOfAux s fuel (c.args.getD 1 0)) (fun _ => fnType s c)
 
 def Mgr.typeOf (s : Mgr) (i : Nid) : Option Ty := typeOfAux s (i + 1) i
 
-/-- `FNode.bv_width` (fnode.py:468-490); `none` where Python raises. -/
+/-- One step of `FNode.bv_width` (fnode.py:468-490); `none` where Python raises.  `w1` is the
+    width of the second child (ITE), `selTy` the type of the first child (select). -/
+def bvView (nt : Nat) (pl : Payload) (w1 : Unit → Option Nat) (selTy fty : Unit → Option Ty) : Option Nat :=
+  if nt = NT.BV_CONSTANT then (match pl with | .bv _ w => some w | _ => none)
+  else if nt = NT.SYMBOL then (match pl with | .sym _ (.bv w) => some w | _ => none)
+  else if nt = NT.FUNCTION then (match fty () with | some (.func (.bv w) _) => some w | _ => none)
+  else if nt = NT.ITE then w1 ()
+  else if nt = NT.ARRAY_SELECT then
+    (match selTy () with | some (.array _ (.bv w)) => some w | _ => none)
+  else if isBvOperator nt then
+    (match pl with | .nums (w :: _) => some w.toNat | _ => none)
+  else none
+
 def bvWidthAux (s : Mgr) : Nat → Nid → Option Nat
   | 0, _ => none
   | fuel + 1, i =>
     match s.content? i with
     | none => none
     | some c =>
-      let nt := c.nodeType
-      if nt = NT.BV_CONSTANT then (match c.payload with | .bv _ w => some w | _ => none)
-      else if nt = NT.SYMBOL then (match c.payload with | .sym _ (.bv w) => some w | _ => none)
-      else if nt = NT.FUNCTION then
-        (match c.payload with
-         | .fn f => (match s.content? f with
-                     | some ⟨_, _, .sym _ (.func (.bv w) _)⟩ => some w
-                     | _ => none)
-         | _ => none)
-      else if nt = NT.ITE then bvWidthAux s fuel (c.args.getD 1 0)
-      else if nt = NT.ARRAY_SELECT then
-        (match s.typeOf (c.args.headD 0) with | some (.array _ (.bv w)) => some w | _ => none)
-      else if isBvOperator nt then
-        (match c.payload with | .nums (w :: _) => some w.toNat | _ => none)
-      else none
+      bvView c.nodeType c.payload (fun _ => bvWidthAux s fuel (c.args.getD 1 0))
+        (fun _ => s.typeOf (c.args.headD 0)) (fun _ => fnType s c)
 
 def Mgr.bvWidth (s : Mgr) (i : Nid) : Option Nat := bvWidthAux s (i + 1) i
 
